@@ -112,6 +112,11 @@ PROPS['C08'] = dict(modules=['Hagall.Props.C08'], profiles=['malformed', 'mixed'
                     topics=slice_of(ALL_TOPICS + ['disconnect'], kinds=['outcome', 'state', 'gauge'], pred=lambda d: d.get('kind') != 'delivery'),
                     trusted=['go/cmd/wire (wire-level scenarios, end-state observers)', 'timing: scenario time limits are generous multiples of the configured idle timeout'])
 
+PROPS['C09'] = dict(modules=['Hagall.Props.C09'], profiles=['mixed'], n=(40, 400), focus=None,
+                    tools=['drive', 'extract', 'wire-race'], extra=['race_harness'], topics=slice_of([], kinds=[]),
+                    trusted=['the Go race detector (happens-before, dynamic: reports only races that the executions exhibit)',
+                             'go/cmd/wire scenario concurrent (randomised real-thread executions, completion watchdog)'])
+
 # every property's obligations include the facts it rests on (regenerated from the source on every run)
 ABS = {'C14': ['Hagall.Gen.AbsCustom'], 'C17': ['Hagall.Gen.AbsFlags'], 'C04': ['Hagall.Gen.AbsDispatch'],
        'C18': ['Hagall.Gen.AbsLatency'], 'C19': ['Hagall.Gen.AbsChans'], 'C08': ['Hagall.Gen.AbsChans', 'Hagall.Gen.AbsDispatch', 'Hagall.Gen.AbsLife']}
